@@ -271,8 +271,9 @@ def resizePlan2 (h w : Nat) (nh nw : Rat) : Except Err Plan2 :=
 /-- `Image.constrain_points_to_bounds` on one coordinate -/
 def constrainPt (n : Nat) (p : Rat) : Rat := if p < 0 then 0 else if (n : Rat) - p < 0 then (n : Rat) else p
 
-/-- `Image.crop(min_indices, max_indices, constrain_to_boundary)` as coded (the `or` in the boundary test
-is C13's subject; the C01 correspondence only uses requests on which both readings agree) -/
+/-- `Image.crop(min_indices, max_indices, constrain_to_boundary)`.  The raise-or-clip decision is C13's
+subject (repaired in /repo by `fix: Image.crop silently clipped …`: both corners must be unconstrained);
+the C01 correspondence only uses requests on which the old and the repaired decision agree -/
 def cropPlan2 (h w : Nat) (mn mx : V2) (constrain : Bool) : Except Err Plan2 :=
   let mnx : Rat := (mn.x.floor : Rat); let mny : Rat := (mn.y.floor : Rat)
   let mxx : Rat := (mx.x.ceil : Rat); let mxy : Rat := (mx.y.ceil : Rat)
@@ -280,9 +281,9 @@ def cropPlan2 (h w : Nat) (mn mx : V2) (constrain : Bool) : Except Err Plan2 :=
   else
     let bx := constrainPt h mnx; let by' := constrainPt w mny
     let Bx := constrainPt h mxx; let By := constrainPt w mxy
-    let allMaxBounded := bx = mnx ∧ by' = mny
-    let allMinBounded := Bx = mxx ∧ By = mxy
-    if ¬ (constrain ∨ allMaxBounded ∨ allMinBounded) then .error .boundary
+    let allMinBounded := bx = mnx ∧ by' = mny
+    let allMaxBounded := Bx = mxx ∧ By = mxy
+    if ¬ (constrain ∨ (allMinBounded ∧ allMaxBounded)) then .error .boundary
     else .ok ⟨(Bx - bx).floor.toNat, (By - by').floor.toNat, transl2 ⟨bx, by'⟩, .constant 0, some .nearest,
               ⟨Bx - bx, By - by'⟩⟩
 
@@ -410,9 +411,9 @@ def cropPlan3 (n0 n1 n2 : Nat) (mn mx : V3) (constrain : Bool) : Except Err Plan
   else
     let l0 := constrainPt n0 a0; let l1 := constrainPt n1 a1; let l2 := constrainPt n2 a2
     let u0 := constrainPt n0 b0; let u1 := constrainPt n1 b1; let u2 := constrainPt n2 b2
-    let allMaxBounded := l0 = a0 ∧ l1 = a1 ∧ l2 = a2
-    let allMinBounded := u0 = b0 ∧ u1 = b1 ∧ u2 = b2
-    if ¬ (constrain ∨ allMaxBounded ∨ allMinBounded) then .error .boundary
+    let allMinBounded := l0 = a0 ∧ l1 = a1 ∧ l2 = a2
+    let allMaxBounded := u0 = b0 ∧ u1 = b1 ∧ u2 = b2
+    if ¬ (constrain ∨ (allMinBounded ∧ allMaxBounded)) then .error .boundary
     else .ok ⟨(u0 - l0).floor.toNat, (u1 - l1).floor.toNat, (u2 - l2).floor.toNat, transl3 ⟨l0, l1, l2⟩,
               .constant 0, some .nearest, ⟨u0 - l0, u1 - l1, u2 - l2⟩⟩
 
